@@ -224,23 +224,23 @@ func MapColumnsToAliases(selectQuery *sqlparser.Select, tableSchemaStore config.
 				continue
 			}
 
-			tableName, err := getFirstTableWithoutAlias(selectQuery.From)
-			if err == nil {
-				out = append(out, &base.ColumnInfo{Table: tableName, Name: allColumnsName, Alias: allColumnsName})
-			} else {
-				if len(selectQuery.From) == 1 {
-					tableNameStr, err := getTableNameWithoutAliases(selectQuery.From[0])
-					if err != nil {
-						return nil, err
-					}
-					out = append(out, &base.ColumnInfo{Table: tableNameStr, Name: allColumnsName, Alias: allColumnsName})
-					continue
-				}
+			// FROM without JOIN: `tbl.*` / `alias.*` are the columns of that table, `*` the columns of every
+			// table of the list in order (the first table without alias was taken for both: `SELECT b.* FROM t1, t2 AS b`
+			// got the settings of t1, `SELECT * FROM t1, t2` failed and lost all settings)
+			if !starExpr.TableName.Name.IsEmpty() {
 				tableNameStr, err := findTableName(starExpr.TableName.Name.ValueForConfig(), starExpr.TableName.Name.ValueForConfig(), selectQuery.From)
 				if err != nil {
 					return nil, err
 				}
 				out = append(out, &base.ColumnInfo{Table: tableNameStr.Table, Name: allColumnsName, Alias: allColumnsName})
+				continue
+			}
+			for _, tableExpr := range selectQuery.From {
+				tableNameStr, err := getTableNameWithoutAliases(tableExpr)
+				if err != nil {
+					return nil, err
+				}
+				out = append(out, &base.ColumnInfo{Table: tableNameStr, Name: allColumnsName, Alias: allColumnsName})
 			}
 			continue
 		}
